@@ -8,6 +8,7 @@ CONSTANTS
   MaxDeletes = 1
   Coords = {"A"}
   MaxRestores = 1
+  Shapes = {"plain", "dup"}
   GetDs = {}
 INVARIANTS Raw_Converged
 VIEW MCView
